@@ -821,4 +821,72 @@ theorem setHref_edges (vfs : Vfs) (who : Who) : ∀ (fuel : Nat) (chain : List S
               simp [avail, hl, edges, ih]
 
 
+/-! ## strings and segment lists -/
+
+theorem splitOn_ne_nil (c : Nat) : ∀ s, splitOn c s ≠ []
+  | [] => by simp [splitOn]
+  | x :: xs => by
+    unfold splitOn
+    split
+    · simp
+    · split <;> simp
+
+theorem splitOn_noSep (c : Nat) : ∀ s : Str, c ∉ s → splitOn c s = [s]
+  | [], _ => rfl
+  | x :: xs, h => by
+    have hx : x ≠ c := fun e => h (by simp [e])
+    have := splitOn_noSep c xs (fun hm => h (List.mem_cons_of_mem _ hm))
+    simp [splitOn, hx, this]
+
+theorem splitOn_append_sep (c : Nat) : ∀ (s t : Str), c ∉ s → splitOn c (s ++ c :: t) = s :: splitOn c t
+  | [], t, _ => by simp [splitOn]
+  | x :: xs, t, h => by
+    have hx : x ≠ c := fun e => h (by simp [e])
+    have ih := splitOn_append_sep c xs t (fun hm => h (List.mem_cons_of_mem _ hm))
+    simp [splitOn, hx, ih]
+
+/-- `'/'.join(parts).split('/') == parts` when no part contains the separator -/
+theorem splitOn_joinWith (c : Nat) : ∀ cs : List Str, cs ≠ [] → (∀ s ∈ cs, c ∉ s) → splitOn c (joinWith c cs) = cs
+  | [], h, _ => absurd rfl h
+  | [s], _, h => by simp [joinWith, splitOn_noSep c s (h s (by simp))]
+  | s :: t :: ss, _, h => by
+    have ih := splitOn_joinWith c (t :: ss) (by simp) (fun x hx => h x (List.mem_cons_of_mem _ hx))
+    simp only [joinWith]
+    rw [splitOn_append_sep c s _ (h s (by simp)), ih]
+
+/-- `normpath` of a relative path given by its segments is `normComps` of the segments -/
+theorem normpath_joinWith (cs : List Str) (f : Str) (h0 : ∀ s ∈ cs ++ [f], cSlash ∉ s)
+    (h1 : (cs ++ [f]).head? ≠ some []) (hf : Normal f) :
+    normpath (joinWith cSlash (cs ++ [f])) = joinWith cSlash (normComps false (cs ++ [f])) := by
+  have hne : cs ++ [f] ≠ [] := by simp
+  have hsplit := splitOn_joinWith cSlash (cs ++ [f]) hne h0
+  -- the joined string is not empty and does not start with a slash
+  have hj : joinWith cSlash (cs ++ [f]) ≠ [] ∧ (joinWith cSlash (cs ++ [f])).head? ≠ some cSlash := by
+    cases hcs : cs ++ [f] with
+    | nil => exact absurd hcs hne
+    | cons a rest =>
+      rw [hcs] at h1 h0
+      have ha : a ≠ [] := by simpa using h1
+      cases a with
+      | nil => exact absurd rfl ha
+      | cons x xs =>
+        have hx : x ≠ cSlash := fun e => h0 (x :: xs) (by simp) (by simp [e])
+        cases rest <;> simp [joinWith, hx]
+  have hi : initialSlashes (joinWith cSlash (cs ++ [f])) = 0 := by
+    unfold initialSlashes
+    split <;> simp_all [cSlash]
+  have hlast : (normComps false (cs ++ [f])).getLast? = some f := normComps_getLast false cs f hf
+  have hres : joinWith cSlash (normComps false (cs ++ [f])) ≠ [] := by
+    intro e
+    -- a join whose last piece is the non-empty `f` is not empty
+    generalize normComps false (cs ++ [f]) = l at hlast e
+    induction l with
+    | nil => simp at hlast
+    | cons a t ih =>
+      cases t with
+      | nil => simp at hlast; subst hlast; simp [joinWith] at e; exact hf.1 e
+      | cons b u => simp [joinWith] at e
+  simp [normpath, hj.1, hi, hsplit, hres]
+
+
 end CssVerif.Urls
